@@ -7,6 +7,28 @@ VERIF = os.path.dirname(os.path.dirname(os.path.abspath(__file__)))
 props = [json.loads(l) for l in open(os.path.join(VERIF, "properties.jsonl"))]
 
 CLAIMED = {
+    "C08": dict(
+        category="proof",
+        text="Closed theorems for the pieces of the accumulation: the value installed by default propagation reads as the plain "
+             "sum/product of the children's values; propagation never replaces or retypes an explicit definition; each generated "
+             "repetition sum is linear in the child's value (weights factor out). Partial: their composition over the tree is "
+             "checked by the stream: every resource of every node of the real compiled tree equals the bottom-up denotation "
+             "(sum/product over exactly the children that have it), plus the weighted leaf-sum for leaf-only additive resources.",
+        design_ref="DESIGN.md section 5 C08",
+        note="Trusted: Coq kernel; compile/preprocessing model tied by the stream; one resource name with two types among siblings is outside the domain.",
+        technique="Coq lemmas on propagation and linearity of generated repetition formulas + denotational comparison stream",
+    ),
+    "C09": dict(
+        category="proof",
+        text="Closed theorems: every lookup the traversal performs (dictionaries, children, wires, predecessors) is by unique name and "
+             "invariant under permutation of the listing; substitution and evaluate are invariant under permutation of the "
+             "dictionary. Partial: independence from the choice among topological processing orders and order-insensitivity of "
+             "the preprocessing stages are exercised by the hier-permute stream (all list-valued fields permuted at every level; "
+             "thorough: all child permutations up to 4 children) on the real code.",
+        design_ref="DESIGN.md section 5 C09",
+        note="Trusted: Coq kernel; compile model tied by the stream; qref's own sorting on load is not relied upon.",
+        technique="Coq permutation-invariance lemmas + differential permutation stream",
+    ),
     "C02": dict(
         category="proof",
         text="Closed theorems: the wire law for one merge of compiled port sizes into the parameter map (the variable #p of every "
